@@ -44,7 +44,7 @@ def main():
     cmd = sys.argv[1]
     if cmd == "list":
         obs = _obs(sys.argv[2], sys.argv[3])
-        print(json.dumps([{"name": o.name, "bounds": o.bounds, "timeout": o.timeout, "expect": sorted(o.expect)} for o in obs.values()]))
+        print(json.dumps([{"name": o.name, "bounds": o.bounds, "timeout": o.timeout, "expect": sorted(o.expect), "group": getattr(o, "group", None)} for o in obs.values()]))
         return
     if cmd == "run":
         module, tier, name, outfile, prop, seed = sys.argv[2:8]
